@@ -288,7 +288,7 @@ func randRemoveHistory(r *rand.Rand, doc *Node) []Op {
 		case x < 15:
 			op.Op = "set"
 			op.Path = pick()
-			op.Val, op.ValMode = randSetValue(r, !op.Path.definite(), false)
+			op.Val, op.ValMode = randSetValue(r, op.Path.hasDescent() || (avoidSharedSet && !op.Path.definite()), false)
 			if op.ValMode == "text" || op.ValMode == "stream" {
 				op.Op = "parse"
 			}
